@@ -128,7 +128,7 @@ func (p *Prog) clientBlockOK() (bool, []string) {
 				e1, ok1 := body[2].(*ast.IfStmt)
 				e2, ok2 := body[3].(*ast.IfStmt)
 				okBody = ok1 && ok2 && squash(p.text(e1.Cond)) == "err!=nil" && len(e1.Body.List) == 1 && squash(p.text(e1.Body.List[0])) == "returnerr" &&
-					p.isConjunctionOf(e2.Cond, "len("+b+")==0", "hf.Empty()") && len(e2.Body.List) == 1 && squash(p.text(e2.Body.List[0])) == "break"
+					isNoFieldTest(p, e2.Cond) && len(e2.Body.List) == 1 && squash(p.text(e2.Body.List[0])) == "break"
 			}
 			if !okBody {
 				fail("skipFields' loop is no longer: decode a field; error -> returned; nothing decoded at the end of the input -> stop; count the field")
@@ -176,7 +176,7 @@ func ruleClientBlock(p *Prog, r *Out) {
 				e1, ok1 := body[1].(*ast.IfStmt)
 				e2, ok2 := body[2].(*ast.IfStmt)
 				head = ok1 && ok2 && squash(p.text(e1.Cond)) == "err!=nil" && len(e1.Body.List) == 1 && squash(p.text(e1.Body.List[0])) == "returnerr" &&
-					p.isConjunctionOf(e2.Cond, "len(b)==0", "hf.Empty()") && len(e2.Body.List) == 1 && squash(p.text(e2.Body.List[0])) == "break" &&
+					isNoFieldTest(p, e2.Cond) && len(e2.Body.List) == 1 && squash(p.text(e2.Body.List[0])) == "break" &&
 					squash(p.text(body[3])) == "c.block.fields++"
 			}
 			r.check(head, "readHeader counts each field before it judges it", p.pos(loop.Pos()), "nextField; error -> returned; nothing decoded -> stop; fields++; then the validators", "readHeader's loop no longer begins: decode with nextField; a decoding error is returned as it is; a call that decoded nothing ends the loop; the field is counted: a dynamic table size update after a rejected field is accepted, or a half-decoded field is judged")
@@ -452,4 +452,11 @@ func (p *Prog) blockFieldsSetByCaller() map[string]bool {
 		return true
 	})
 	return out
+}
+
+// isNoFieldTest: the condition under which a decode loop stops without counting
+// a field is the decoder's own word that its last step produced none.
+func isNoFieldTest(p *Prog, cond ast.Expr) bool {
+	t := squash(p.text(cond))
+	return t == "!sc.dec.fieldDecoded" || t == "!c.dec.fieldDecoded"
 }
